@@ -23,6 +23,7 @@ import (
 	"os"
 	"strconv"
 	"strings"
+	"time"
 
 	"github.com/google/mtail/internal/metrics"
 	"github.com/google/mtail/internal/runtime/compiler/ast"
@@ -188,7 +189,7 @@ func (g *gen) cond(d int) ex {
 			}
 		case k < 6:
 			op := vlib.Pick(g.rng, []string{"=~", "!~"})
-			return ex{"$s " + op + " " + vlib.Pick(g.rng, regexes), 2}
+			return ex{"$s " + op + " " + g.regex(), 2}
 		default:
 			if e, ok := g.bin(vlib.Pick(g.rng, []string{"&&", "||"}), g.cond(d-1), g.cond(d-1)); ok {
 				return e
@@ -200,7 +201,30 @@ func (g *gen) cond(d int) ex {
 var strBodies = []string{`plain`, ``, `two words`, `tab\tx`, `nl\n`, `uni é 変`, `back\\slash`, `a\\\\b`, `pct %d`}
 var quoteBodies = []string{`a\"b`, `\"`, `say \"hi\" \\ there`, `x\\\"y`}
 
+var strPieces = []string{"a", "b c", "\\\"", "\\\\", "\\n", "\\t", "é", "/", "%", "'", "\\x", "0", "変", "{}", "\\\\\\\""}
+var rePieces = []string{"a", "b+", "\\/", "\\d", "[a-z]", "\\\\", "\"", "(x)", "\\.", "é", "\\w*", "x|y", "\\s"}
+
+func (g *gen) randLit(pieces []string) string {
+	var b strings.Builder
+	n := 1 + g.rng.Intn(5)
+	for i := 0; i < n; i++ {
+		b.WriteString(vlib.Pick(g.rng, pieces))
+	}
+	return b.String()
+}
+
+func (g *gen) regex() string {
+	if g.rng.Chance(50) {
+		return "/" + g.randLit(rePieces) + "/"
+	}
+	return vlib.Pick(g.rng, regexes)
+}
+
 func (g *gen) str() string {
+	if g.flags.quotes && g.rng.Chance(40) {
+		g.feats["string-with-quote"] = true
+		return `"` + g.randLit(strPieces) + `"`
+	}
 	if g.flags.quotes && g.rng.Chance(60) {
 		g.feats["string-with-quote"] = true
 		return `"` + vlib.Pick(g.rng, quoteBodies) + `"`
@@ -247,7 +271,7 @@ func (g *gen) stmts(b *strings.Builder, ind string, d int, inDef bool) {
 			b.WriteString(ind + "}\n")
 		case k == 10 && d > 0:
 			// a pattern condition, alone or with a logical tail
-			re := vlib.Pick(g.rng, regexes)
+			re := g.regex()
 			c := re
 			if g.rng.Chance(50) {
 				t := g.cond(1)
@@ -815,6 +839,53 @@ func tokens(text string) (string, bool) {
 	return "", false
 }
 
+// litNodes calls f on every node of the tree
+func litNodes(n ast.Node, f func(ast.Node)) {
+	if n == nil {
+		return
+	}
+	f(n)
+	switch v := n.(type) {
+	case *ast.StmtList:
+		for _, c := range v.Children {
+			litNodes(c, f)
+		}
+	case *ast.ExprList:
+		for _, c := range v.Children {
+			litNodes(c, f)
+		}
+	case *ast.CondStmt:
+		litNodes(v.Cond, f)
+		litNodes(v.Truth, f)
+		if v.Else != nil {
+			litNodes(v.Else, f)
+		}
+	case *ast.BuiltinExpr:
+		if v.Args != nil {
+			litNodes(v.Args, f)
+		}
+	case *ast.BinaryExpr:
+		litNodes(v.LHS, f)
+		litNodes(v.RHS, f)
+	case *ast.UnaryExpr:
+		litNodes(v.Expr, f)
+	case *ast.IndexedExpr:
+		litNodes(v.Index, f)
+	case *ast.ConvExpr:
+		litNodes(v.N, f)
+	case *ast.PatternExpr:
+		litNodes(v.Expr, f)
+	case *ast.PatternFragment:
+		litNodes(v.Expr, f)
+	case *ast.DecoDecl:
+		litNodes(v.Block, f)
+	case *ast.DecoStmt:
+		litNodes(v.Block, f)
+	case *ast.DelStmt:
+		litNodes(v.N, f)
+	}
+}
+
 // exprNodes lists expression statements and conditions in the generator's order
 func exprNodes(n ast.Node, acc *[]ast.Node) {
 	switch v := n.(type) {
@@ -837,6 +908,310 @@ func exprNodes(n ast.Node, acc *[]ast.Node) {
 	case *ast.BinaryExpr, *ast.UnaryExpr, *ast.IndexedExpr, *ast.BuiltinExpr:
 		*acc = append(*acc, n)
 	}
+}
+
+// ---------------------------------------------------------------- whole programs
+
+func coqBlock(n ast.Node) (string, bool) {
+	sl, ok := n.(*ast.StmtList)
+	if !ok {
+		return "", false
+	}
+	s := "BNil"
+	for i := len(sl.Children) - 1; i >= 0; i-- {
+		st, ok := coqProgStmt(sl.Children[i])
+		if !ok {
+			return "", false
+		}
+		s = "(BCons " + st + " " + s + ")"
+	}
+	return s, true
+}
+
+func coqProgStmt(n ast.Node) (string, bool) {
+	switch v := n.(type) {
+	case *ast.VarDecl:
+		return "(SDecl " + coqDecl(v) + ")", true
+	case *ast.PatternFragment:
+		id, ok := v.ID.(*ast.IDTerm)
+		if !ok {
+			return "", false
+		}
+		e, ok := coqConcat(v.Expr)
+		if !ok {
+			return "", false
+		}
+		return "(SConst " + vlib.Bytes(id.Name) + " " + e + ")", true
+	case *ast.CondStmt:
+		t, ok := coqBlock(v.Truth)
+		if !ok {
+			return "", false
+		}
+		if _, ok := v.Cond.(*ast.OtherwiseStmt); ok {
+			if v.Else != nil {
+				return "", false
+			}
+			return "(SOtherwise " + t + ")", true
+		}
+		c, ok := coqConcat(v.Cond)
+		if !ok {
+			return "", false
+		}
+		if v.Else == nil {
+			return "(SIf " + c + " " + t + ")", true
+		}
+		e, ok := coqBlock(v.Else)
+		if !ok {
+			return "", false
+		}
+		return "(SIfElse " + c + " " + t + " " + e + ")", true
+	case *ast.DecoDecl:
+		b, ok := coqBlock(v.Block)
+		if !ok {
+			return "", false
+		}
+		return "(SDef " + vlib.Bytes(v.Name) + " " + b + ")", true
+	case *ast.DecoStmt:
+		b, ok := coqBlock(v.Block)
+		if !ok {
+			return "", false
+		}
+		return "(SDeco " + vlib.Bytes(v.Name) + " " + b + ")", true
+	case *ast.NextStmt:
+		return "SNext", true
+	case *ast.StopStmt:
+		return "SStop", true
+	case *ast.DelStmt:
+		e, ok := coqExpr(v.N)
+		if !ok {
+			return "", false
+		}
+		return "(SDel " + e + " " + vlib.Z(int64(v.Expiry)) + ")", true
+	}
+	st, ok := coqStmt(n)
+	if !ok {
+		return "", false
+	}
+	return "(SExprS " + st + ")", true
+}
+
+// coqConcat: an expression in which pattern concatenations are ordinary `+`
+// trees (conditions, const bodies): /a/ + X is Bin OPlus (regex) (Id X) in the
+// Go AST too, below transparent PatternExpr/MATCH wrappers
+func coqConcat(n ast.Node) (string, bool) {
+	switch v := n.(type) {
+	case *ast.PatternExpr:
+		return coqConcat(v.Expr)
+	case *ast.UnaryExpr:
+		if v.Op == parser.MATCH {
+			return coqConcat(v.Expr)
+		}
+	case *ast.IDTerm:
+		return "(Id " + vlib.Bytes(v.Name) + " ENil)", true
+	case *ast.BinaryExpr:
+		if o, ok := binNames[v.Op]; ok && (v.Op == parser.PLUS || v.Op == parser.AND || v.Op == parser.OR) {
+			l, ok1 := coqConcat(v.LHS)
+			r, ok2 := coqConcat(v.RHS)
+			if ok1 && ok2 {
+				return "(Bin " + o + " " + l + " " + r + ")", true
+			}
+			return "", false
+		}
+	}
+	return coqExpr(n)
+}
+
+// progTokens lexes a whole program with the real lexer into Program.ptk terms.
+// InRegex is raised where the parser would: at a DIV where an operand is expected
+// (also right after `const ID`).  A newline directly after a binary operator or
+// an assignment sign is the grammar's opt_nl and is dropped.
+func progTokens(text string) (string, bool) {
+	l := parser.NewLexer("p", bytes.NewReader([]byte(text)))
+	var out []string
+	prev, prev2 := parser.Kind(parser.NL), parser.Kind(parser.NL)
+	inDecl, ctx := false, ""
+	afterOp := false
+	for n := 0; n < 4*len(text)+8; n++ {
+		t := l.NextToken()
+		k := t.Kind
+		if k == parser.EOF {
+			return vlib.List(out), true
+		}
+		wasOp := afterOp
+		afterOp = false
+		if inDecl {
+			switch k {
+			case parser.NL:
+				inDecl = false
+				out = append(out, "PNL")
+			case parser.COUNTER, parser.GAUGE, parser.TIMER, parser.TEXT, parser.HISTOGRAM:
+				out = append(out, "PD (DKind "+strconv.Itoa(int(declKind(k)))+")")
+			case parser.BY:
+				out, ctx = append(out, "PD DBy"), "by"
+			case parser.AS:
+				out, ctx = append(out, "PD DAs"), "as"
+			case parser.LIMIT:
+				out, ctx = append(out, "PD DLimit"), "limit"
+			case parser.BUCKETS:
+				out, ctx = append(out, "PD DBuckets"), "buckets"
+			case parser.COMMA:
+				out = append(out, "PD DComma")
+			case parser.ID:
+				out = append(out, "PD (DName "+vlib.Bytes(t.Spelling)+")")
+			case parser.STRING:
+				if ctx == "as" {
+					out = append(out, "PD (DStr "+vlib.Bytes(t.Spelling)+")")
+				} else {
+					out = append(out, "PD (DName "+vlib.Bytes(t.Spelling)+")")
+				}
+			case parser.INTLITERAL:
+				i, err := strconv.ParseInt(t.Spelling, 10, 64)
+				if err != nil {
+					return "", false
+				}
+				if ctx == "limit" {
+					out = append(out, "PD (DInt "+vlib.Z(i)+")")
+				} else {
+					out = append(out, "PD (DNum "+vlib.N(math.Float64bits(float64(i)))+")")
+				}
+			case parser.FLOATLITERAL:
+				f, err := strconv.ParseFloat(t.Spelling, 64)
+				if err != nil {
+					return "", false
+				}
+				out = append(out, "PD (DNum "+vlib.N(math.Float64bits(f))+")")
+			default:
+				return "", false
+			}
+			prev2, prev = prev, k
+			continue
+		}
+		switch k {
+		case parser.NL:
+			if !wasOp {
+				out = append(out, "PNL")
+			} else {
+				afterOp = false
+			}
+		case parser.HIDDEN:
+			inDecl, ctx = true, ""
+			out = append(out, "PD DHidden")
+		case parser.COUNTER, parser.GAUGE, parser.TIMER, parser.TEXT, parser.HISTOGRAM:
+			inDecl, ctx = true, ""
+			out = append(out, "PD (DKind "+strconv.Itoa(int(declKind(k)))+")")
+		case parser.LCURLY:
+			out = append(out, "PLC")
+		case parser.RCURLY:
+			out = append(out, "PRC")
+		case parser.ELSE:
+			out = append(out, "PElse")
+		case parser.OTHERWISE:
+			out = append(out, "POtherwise")
+		case parser.DEF:
+			out = append(out, "PDef")
+		case parser.DECO:
+			out = append(out, "PDeco "+vlib.Bytes(t.Spelling))
+		case parser.NEXT:
+			out = append(out, "PNext")
+		case parser.STOP:
+			out = append(out, "PStop")
+		case parser.DEL:
+			out = append(out, "PDel")
+		case parser.CONST:
+			out = append(out, "PConst")
+		case parser.AFTER:
+			d := l.NextToken()
+			if d.Kind != parser.DURATIONLITERAL {
+				return "", false
+			}
+			dur, err := time.ParseDuration(d.Spelling)
+			if err != nil {
+				return "", false
+			}
+			out = append(out, "PAfter "+vlib.Z(int64(dur)))
+			k = parser.DURATIONLITERAL
+		case parser.DIV:
+			if !operandEnd(prev) || (prev == parser.ID && prev2 == parser.CONST) {
+				l.InRegex = true
+				re := l.NextToken()
+				cl := l.NextToken()
+				if re.Kind != parser.REGEX || cl.Kind != parser.DIV {
+					return "", false
+				}
+				out = append(out, "PE (TAtom (ARegex "+vlib.Bytes(re.Spelling)+"))")
+				k = parser.STRING
+			} else {
+				out = append(out, "PE (TOp ODiv)")
+				afterOp = true
+			}
+		default:
+			e, ok := exprToken(t)
+			if !ok {
+				return "", false
+			}
+			out = append(out, "PE ("+e+")")
+			if strings.HasPrefix(e, "TOp ") || strings.HasPrefix(e, "TAssign ") {
+				afterOp = true
+			}
+			if k == parser.ID && prev == parser.CONST {
+				afterOp = true // CONST id_expr opt_nl
+			}
+		}
+		prev2, prev = prev, k
+	}
+	return "", false
+}
+
+// exprToken maps one lexer token (not DIV, not NL) to a Grammar.tk term
+func exprToken(t parser.Token) (string, bool) {
+	switch t.Kind {
+	case parser.INTLITERAL:
+		i, err := strconv.ParseInt(t.Spelling, 10, 64)
+		if err != nil {
+			return "", false
+		}
+		return "TAtom (AInt " + vlib.Z(i) + ")", true
+	case parser.FLOATLITERAL:
+		f, err := strconv.ParseFloat(t.Spelling, 64)
+		if err != nil {
+			return "", false
+		}
+		return "TAtom (AFloat " + vlib.N(math.Float64bits(f)) + ")", true
+	case parser.STRING:
+		return "TAtom (AStr " + vlib.Bytes(t.Spelling) + ")", true
+	case parser.CAPREF:
+		return "TAtom (ACapref false " + vlib.Bytes(t.Spelling) + ")", true
+	case parser.CAPREF_NAMED:
+		return "TAtom (ACapref true " + vlib.Bytes(t.Spelling) + ")", true
+	case parser.ID:
+		return "TId " + vlib.Bytes(t.Spelling), true
+	case parser.BUILTIN:
+		return "TBuiltin " + vlib.Bytes(t.Spelling), true
+	case parser.NOT:
+		return "TNot", true
+	case parser.INC:
+		return "TPost true", true
+	case parser.DEC:
+		return "TPost false", true
+	case parser.ASSIGN:
+		return "TAssign false", true
+	case parser.ADD_ASSIGN:
+		return "TAssign true", true
+	case parser.LPAREN:
+		return "TLP", true
+	case parser.RPAREN:
+		return "TRP", true
+	case parser.LSQUARE:
+		return "TLB", true
+	case parser.RSQUARE:
+		return "TRB", true
+	case parser.COMMA:
+		return "TComma", true
+	}
+	if o, ok := binNames[int(t.Kind)]; ok {
+		return "TOp " + o, true
+	}
+	return "", false
 }
 
 // declKind: the metrics.Kind value the parser gives a type keyword
@@ -909,7 +1284,7 @@ func main() {
 		replay(a.Replay)
 		return
 	}
-	out := vlib.NewOut(a, "From V Require Import Corr.Run_C23.", "c23case", 500)
+	out := vlib.NewOut(a, "From V Require Import Corr.Run_C23.", "c23case", 140)
 	rng := vlib.NewRand(a.Seed)
 	np := 160
 	if a.Thorough() {
@@ -939,6 +1314,7 @@ func main() {
 		out.Count("program/witness")
 	}
 	accepted, rejected, outside, orderSkew := 0, 0, 0, 0
+	seenLit := map[string]bool{}
 	for i := 0; i < np; i++ {
 		fl := genFlags{parens: true, hidden: true, buckets: true, quotes: true, floats: true, smallDur: true, qkeys: true}
 		// a quarter of the programs avoid each lossy construct in turn, so that
@@ -977,7 +1353,10 @@ func main() {
 		if err != nil {
 			continue
 		}
-		if sl, ok := ast0.(*ast.StmtList); ok {
+		// per-declaration and per-expression cases localise a disagreement that the
+		// whole-program case would also show; in the quick tier every third program
+		perNode := a.Thorough() || i%3 == 0
+		if sl, ok := ast0.(*ast.StmtList); ok && perNode {
 			k := 0
 			for _, ch := range sl.Children {
 				vd, ok := ch.(*ast.VarDecl)
@@ -1004,6 +1383,52 @@ func main() {
 				out.Count("decl/in-model")
 			}
 		}
+		// every string and pattern literal: tree text vs what the Unparser writes
+		litNodes(ast0, func(n ast.Node) {
+			var q byte
+			var text string
+			switch v := n.(type) {
+			case *ast.StringLit:
+				q, text = '"', v.Text
+			case *ast.PatternLit:
+				q, text = '/', v.Pattern
+			default:
+				return
+			}
+			key := string(q) + text
+			if seenLit[key] {
+				return
+			}
+			seenLit[key] = true
+			u := parser.Unparser{}
+			f := strings.TrimSuffix(u.Unparse(&ast.StmtList{Children: []ast.Node{n}}), "\n")
+			if len(f) < 2 || f[0] != q || f[len(f)-1] != q {
+				out.Violate("literal-not-delimited", fmt.Sprintf("the unparser wrote %q for a literal with text %q", f, text), map[string]any{"kind": "program", "src": vlib.Q(src)})
+				return
+			}
+			id := out.NextID()
+			out.Add(vlib.App("CLit", vlib.N(id), strconv.Itoa(int(q)), vlib.Bytes(text), vlib.Bytes(f[1:len(f)-1])),
+				caseJ{"", vlib.Q(text), vlib.Q(f)}, strings.ContainsAny(text, "\"/\\"))
+			out.Count("literal/in-model")
+		})
+		// the whole program (quick tier: every second program goes to Coq; the Go
+		// oracle above judges every program)
+		if !a.Thorough() && i%2 == 1 {
+			out.Count("program/not-sent-to-coq")
+		} else if term, ok := coqBlock(ast0); ok {
+			u := parser.Unparser{}
+			ftoks, ok1 := progTokens(u.Unparse(ast0))
+			stoks, ok2 := progTokens(src)
+			if ok1 && ok2 {
+				id := out.NextID()
+				out.Add(vlib.App("CProg", vlib.N(id), term, ftoks, stoks), caseJ{vlib.Q(src), "", vlib.Q(o1)}, true)
+				out.Count("program/in-model")
+			} else {
+				out.Count("program/untokenisable")
+			}
+		} else {
+			out.Count("program/outside-model")
+		}
 		var nodes []ast.Node
 		exprNodes(ast0, &nodes)
 		// the generator's own top-level pattern conditions are not in exprs: align from the back per block is
@@ -1024,6 +1449,9 @@ func main() {
 			orderSkew++
 		}
 		for j, n := range gnodes {
+			if !perNode {
+				break
+			}
 			term, ok := coqStmt(n)
 			if !ok {
 				outside++
